@@ -16,6 +16,7 @@ import (
 	"time"
 
 	"github.com/syndtr/goleveldb/leveldb/storage"
+	"massnet.org/mass-wallet/masswallet"
 	mwdb "massnet.org/mass-wallet/masswallet/db"
 	"vh/dbseam"
 	"vh/env"
@@ -30,6 +31,8 @@ type Opts struct {
 	// Tasks: the base histories contain API operations and background steps (import of C,
 	// removal of B, NewAddress); the oracle then also covers their completion.
 	Tasks bool `json:"tasks"`
+	// Batch > 0: heights per rescan batch (hook variable read through the source overlay)
+	Batch uint64 `json:"batch"`
 }
 
 func isOp(ev string) bool {
@@ -120,6 +123,10 @@ func Recover(w *world.World, progress func() int) (string, error) {
 
 func (m *Model) Run(hist []string) *proto.Result {
 	res := &proto.Result{Info: map[string]int{}}
+	masswallet.VerifImportBatch = 1000
+	if m.O.Batch > 0 {
+		masswallet.VerifImportBatch = m.O.Batch
+	}
 	plan := dbseam.NoPlan
 	mode := ""
 	lowAt := 0
